@@ -45,6 +45,15 @@ func newVerifWSBackend() *verifWSBackend {
 	b := &verifWSBackend{newC: make(chan *verifWSConn, 256)}
 	up := websocket.Upgrader{ReadBufferSize: 4096, WriteBufferSize: 4096}
 	b.srv = httptest.NewServer(http.HandlerFunc(func(w http.ResponseWriter, r *http.Request) {
+		if r.URL.Path == "/hang-up" {
+			// accept the connection, read the upgrade request, hang up without an answer
+			if hj, ok := w.(http.Hijacker); ok {
+				if c, _, err := hj.Hijack(); err == nil {
+					c.Close()
+				}
+			}
+			return
+		}
 		if r.URL.Path == "/reject-handshake" {
 			http.Error(w, "no websocket here", http.StatusForbidden)
 			return
